@@ -13,7 +13,7 @@ from pvx import field
 from pvx.claims import deg, taylor_spec, eq_spec, flat, flat_float, full_domain
 from pvx.harness import Ob
 from pvx.loader import load, rdomain, py_func, source_of
-from pvx.sym import RSym, TSym, T, POISON, unwrap, explore, fill
+from pvx.sym import RSym, TSym, T, POISON, unwrap, explore, fill, Node
 from pvx.npproxy import NpProxy
 from spec import wgs84, frames, nav_ode
 
@@ -202,12 +202,17 @@ def _frame(ctx, py):
         # purity: row offset+2 is F(row offset+1, increment 1): rerun one iteration from row offset+1's DAG
         f = py_func(py._numba_integrate.integrate)
         # free symbols of row off+1 must mention only row off and increment 0
+        seen_nodes = set()
+
         def leaves(node, acc):
+            if id(node) in seen_nodes:
+                return acc
+            seen_nodes.add(id(node))
             if node[0] == "leaf":
                 acc.add(node[1])
             elif node[0] != "const":
                 for ch in node[1:]:
-                    if isinstance(ch, tuple):
+                    if isinstance(ch, Node):
                         leaves(ch, acc)
             return acc
         allowed0 = ({"lla%d" % k for k in range(3)} | {"V%d" % k for k in range(3)} | {"C%d%d" % (k, m) for k in range(3) for m in range(3)}
@@ -240,7 +245,7 @@ def _frame(ctx, py):
             elif node[0] == "const":
                 r = node
             else:
-                r = TSym._op(node[0], *[subst(ch) if isinstance(ch, tuple) else ch for ch in node[1:]])
+                r = TSym._op(node[0], *[subst(ch) if isinstance(ch, Node) else ch for ch in node[1:]])
             memo[id(node)] = r
             return r
         same = True
